@@ -145,7 +145,13 @@ def make_agent(mtu):
     from vlib import simloop
     import btpu.agent
     import btpu.config
-    cfg = btpu.config.Config(node_id='dtn://btpu/', mtu_default=mtu)
+    import io
+    import json
+    doc = dict(node_id='dtn://btpu/')
+    if mtu is not None:
+        doc['mtu_default'] = int(mtu)
+    cfg = btpu.config.Config()
+    cfg.from_file(io.StringIO(json.dumps({'btpu': doc})))     # as a deployment loads it
     ctx = simloop.Context('btpu')
     with simloop.entered(ctx):
         agent = btpu.agent.Agent(cfg)
@@ -365,7 +371,13 @@ def run_public(case, out):
     for idx in range(2):
         ctx = simloop.Context('btpu-%d' % idx)
         simether.NET.add_host(ctx, 'host%d' % idx, {'eth0': macs[idx]})
-        cfg = btpu.config.Config(node_id='dtn://b%d/' % idx, mtu_default=case['mtu'])
+        import io
+        import json
+        doc = dict(node_id='dtn://b%d/' % idx)
+        if case['mtu'] is not None:
+            doc['mtu_default'] = int(case['mtu'])
+        cfg = btpu.config.Config()
+        cfg.from_file(io.StringIO(json.dumps({'btpu': doc})))
         with simloop.entered(ctx):
             agent = agent_mod.Agent(cfg)
         agents.append((ctx, agent))
